@@ -122,6 +122,20 @@ fn program_code_start(program: Program) -> SourcePos {
   }
 }
 
+/// Where a new import declaration goes in a file without imports: in front of
+/// the first statement, or in front of a line-level ignore directive right
+/// above it, so that the directive stays attached to that statement.
+fn import_insertion_start(ctx: &Context) -> SourcePos {
+  let code_start = program_code_start(ctx.program());
+  ctx
+    .text_info()
+    .line_index(code_start)
+    .checked_sub(1)
+    .and_then(|line| ctx.line_ignore_directives().get(&line))
+    .map(|directive| directive.range().start)
+    .unwrap_or(code_start)
+}
+
 impl NoNodeGlobalsHandler {
   fn fix_change(
     &self,
@@ -140,7 +154,7 @@ impl NoNodeGlobalsHandler {
           AddNewline::Leading,
         )
       } else {
-        let code_start = program_code_start(ctx.program());
+        let code_start = import_insertion_start(ctx);
         (
           SourceRange::new(code_start, code_start),
           AddNewline::Trailing,
